@@ -103,6 +103,157 @@ pub proof fn witness_ref_pos()
 }
 '''
 
+RT_LEMMAS = '''
+pub open spec fn first_lf_from(s: Seq<char>, i: int) -> int
+    decreases s.len() - i
+{
+    if i < 0 || i >= s.len() { s.len() as int } else if s[i] == '\\n' { i } else { first_lf_from(s, i + 1) }
+}
+pub open spec fn has_lf_from(s: Seq<char>, i: int) -> bool { first_lf_from(s, i) < s.len() }
+
+pub proof fn lemma_first_lf(s: Seq<char>, i: int)
+    requires 0 <= i <= s.len(),
+    ensures i <= first_lf_from(s, i) <= s.len(),
+            forall|k: int| i <= k < first_lf_from(s, i) ==> s[k] != '\\n',
+            first_lf_from(s, i) < s.len() ==> s[first_lf_from(s, i)] == '\\n',
+    decreases s.len() - i
+{
+    if i < s.len() && s[i] != '\\n' { lemma_first_lf(s, i + 1); }
+}
+// no LF in [a, b): the list of LF positions does not change, neither does the line start
+pub proof fn lemma_no_lf_between(s: Seq<char>, a: int, b: int)
+    requires 0 <= a <= b <= s.len(), forall|k: int| a <= k < b ==> s[k] != '\\n',
+    ensures nl_after(s, b) == nl_after(s, a), line_start(s, b) == line_start(s, a), ref_pos(s, b).0 == ref_pos(s, a).0,
+    decreases b - a
+{
+    if a < b { lemma_no_lf_between(s, a, b - 1); }
+}
+// nl_after(s, k) is a prefix of nl_after(s, n), k <= n; elements increasing, in (0, k]
+pub proof fn lemma_nl_prefix(s: Seq<char>, k: int, n: int)
+    requires 0 <= k <= n <= s.len(), s.len() <= usize::MAX,
+    ensures nl_after(s, k).len() <= nl_after(s, n).len(),
+            nl_after(s, k) == nl_after(s, n).subrange(0, nl_after(s, k).len() as int),
+            forall|t: int| 0 <= t < nl_after(s, n).len() ==> 0 < #[trigger] nl_after(s, n)[t] <= n,
+            forall|t: int| nl_after(s, k).len() <= t < nl_after(s, n).len() ==> k < #[trigger] nl_after(s, n)[t],
+    decreases n - k
+{
+    lemma_nl_bounds(s, n);
+    if k < n {
+        lemma_nl_prefix(s, k, n - 1);
+        lemma_nl_bounds(s, n - 1);
+        if s[n - 1] == '\\n' {
+            assert(nl_after(s, n) == nl_after(s, n - 1).push(n as usize));
+            assert(nl_after(s, k) =~= nl_after(s, n).subrange(0, nl_after(s, k).len() as int));
+        }
+    } else {
+        assert(nl_after(s, k) =~= nl_after(s, n).subrange(0, nl_after(s, k).len() as int));
+    }
+}
+pub proof fn lemma_nl_bounds(s: Seq<char>, n: int)
+    requires 0 <= n <= s.len(), s.len() <= usize::MAX,
+    ensures forall|t: int| 0 <= t < nl_after(s, n).len() ==> 0 < #[trigger] nl_after(s, n)[t] <= n,
+            nl_after(s, n).len() <= n,
+    decreases n
+{
+    if n > 0 { lemma_nl_bounds(s, n - 1); }
+}
+pub proof fn lemma_u16sum_split(s: Seq<char>, a: int, m: int, b: int)
+    requires a <= m <= b,
+    ensures u16sum(s, a, b) == u16sum(s, a, m) + u16sum(s, m, b), u16sum(s, m, b) >= b - m,
+    decreases b - m
+{
+    if m < b { lemma_u16sum_split(s, a, m, b - 1); }
+}
+
+// the facts about the index i whose position is asked for, given the list the take-loop produced
+pub proof fn lemma_roundtrip_lines(s: Seq<char>, i: int, out: Seq<usize>, k: int, take: int)
+    requires 0 <= i <= s.len(), s.len() <= 0x7fff_ffff, 0 <= k <= s.len(), out == nl_after(s, k), out.len() <= take,
+             take == ref_pos(s, i).0 + 1, k == s.len() || out.len() == take,
+             has_lf_from(s, i) || !has_lf_from(s, 0),
+    ensures ({
+        let line_end = if out.len() > 0 { out.last() as int } else { s.len() as int };
+        let rest = if out.len() > 0 { out.drop_last() } else { out };
+        let ls = if rest.len() > 0 { rest.last() as int } else { 0 };
+        &&& ls == line_start(s, i) && ls <= i <= line_end <= s.len()
+        &&& (has_lf_from(s, i) ==> i < line_end)
+        &&& (!has_lf_from(s, 0) ==> line_end == s.len() && ls == 0)
+    }),
+{
+    let n = s.len() as int;
+    lemma_nl_after(s, i);
+    lemma_first_lf(s, i);
+    lemma_first_lf(s, 0);
+    let L = ref_pos(s, i).0;
+    if has_lf_from(s, i) {
+        let j = first_lf_from(s, i);
+        lemma_no_lf_between(s, i, j);
+        assert(nl_after(s, j + 1) == nl_after(s, i).push((j + 1) as usize));
+        assert(nl_after(s, j + 1).len() == L + 1);
+        lemma_nl_prefix(s, j + 1, n);
+        lemma_nl_prefix(s, k, n);
+        // out has exactly L + 1 entries: if the loop ran to the end it saw the LF at j
+        if out.len() < take { assert(k == n); assert(nl_after(s, j + 1).len() <= nl_after(s, n).len()); }
+        assert(out.len() == L + 1);
+        assert(out =~= nl_after(s, j + 1)) by {
+            assert(out == nl_after(s, n).subrange(0, L + 1));
+            assert(nl_after(s, j + 1) == nl_after(s, n).subrange(0, L + 1));
+        }
+        assert(out.last() == (j + 1) as usize);
+        assert(out.drop_last() =~= nl_after(s, i));
+    } else {
+        // no LF at all
+        lemma_no_lf_between(s, 0, n);
+        lemma_no_lf_between(s, 0, k);
+        lemma_no_lf_between(s, 0, i);
+        assert(nl_after(s, 0) =~= Seq::<usize>::empty());
+        assert(out.len() == 0);
+    }
+}
+
+pub proof fn lemma_nl_incr(s: Seq<char>, n: int)
+    requires 0 <= n <= s.len(), s.len() <= usize::MAX,
+    ensures forall|a: int, b: int| 0 <= a < b < nl_after(s, n).len() ==> nl_after(s, n)[a] < nl_after(s, n)[b],
+    decreases n
+{
+    if n > 0 { lemma_nl_incr(s, n - 1); lemma_nl_bounds(s, n - 1); }
+}
+pub open spec fn ends_of(s: Seq<char>, out: Seq<usize>) -> (int, int) {
+    let line_end = if out.len() > 0 { out.last() as int } else { s.len() as int };
+    let rest = if out.len() > 0 { out.drop_last() } else { out };
+    let ls = if rest.len() > 0 { rest.last() as int } else { 0 };
+    (ls, line_end)
+}
+// the loop stopped at m because the columns match: every candidate index i is m
+pub proof fn lemma_roundtrip_unique(s: Seq<char>, out: Seq<usize>, k: int, line: int, col: int, ls: int, le: int, m: int)
+    requires s.len() <= 0x7fff_ffff, 0 <= k <= s.len(), out == nl_after(s, k), out.len() <= line + 1, k == s.len() || out.len() == line + 1,
+             ends_of(s, out) == (ls, le), ls <= m < le, u16sum(s, ls, m) == col,
+             forall|x: int| ls <= x < m ==> u16sum(s, ls, x) != col,
+    ensures forall|i: int| 0 <= i <= s.len() && ref_pos(s, i) == (line, col) && (has_lf_from(s, i) || !has_lf_from(s, 0)) ==> m == i,
+{
+    assert forall|i: int| 0 <= i <= s.len() && ref_pos(s, i) == (line, col) && (has_lf_from(s, i) || !has_lf_from(s, 0)) implies m == i by {
+        lemma_roundtrip_lines(s, i, out, k, line + 1);
+        lemma_nl_after(s, i);
+        // u16sum(ls, i) == col == u16sum(ls, m); strictly increasing
+        if i < m { } else if i > m { lemma_u16sum_split(s, ls, m, i); }
+    }
+}
+// the loop ran over the whole line without a hit
+pub proof fn lemma_roundtrip_end(s: Seq<char>, out: Seq<usize>, k: int, line: int, col: int, ls: int, le: int, total: int)
+    requires s.len() <= 0x7fff_ffff, 0 <= k <= s.len(), out == nl_after(s, k), out.len() <= line + 1, k == s.len() || out.len() == line + 1,
+             ends_of(s, out) == (ls, le), ls <= le, total == u16sum(s, ls, le),
+             forall|x: int| ls <= x < le ==> u16sum(s, ls, x) != col,
+    ensures forall|i: int| 0 <= i <= s.len() && ref_pos(s, i) == (line, col) && (has_lf_from(s, i) || !has_lf_from(s, 0)) ==> (if total > 0 { le } else { ls }) == i,
+{
+    assert forall|i: int| 0 <= i <= s.len() && ref_pos(s, i) == (line, col) && (has_lf_from(s, i) || !has_lf_from(s, 0)) implies (if total > 0 { le } else { ls }) == i by {
+        lemma_roundtrip_lines(s, i, out, k, line + 1);
+        lemma_nl_after(s, i);
+        // i in [ls, le]; i < le is excluded by the no-hit fact, so i == le
+        if total == 0 { lemma_u16sum_split(s, ls, ls, le); }
+    }
+}
+
+'''
+
 BOUND = 'source@.len() <= 0x7fff_ffff'
 
 INDEX_TO_POSITION = dict(
@@ -117,6 +268,42 @@ INDEX_TO_POSITION = dict(
 )
 
 
+RT_COND = "(has_lf_from(source@, {i}) || !has_lf_from(source@, 0))"
+KFACTS = ['0 <= k0 <= source@.len()', 'out0 == nl_after(source@, k0)', 'out0.len() <= position.line + 1', 'k0 == source@.len() || out0.len() == position.line + 1',
+          'ends_of(source@, out0) == (line_start_idx as int, line_end_idx as int)']
+LARGS = 'source@, out0, k0, position.line as int, position.character as int, line_start_idx as int, line_end_idx as int'
+POSITION_TO_INDEX = dict(
+    result='r', props=['C08'],
+    requires=[BOUND, 'position.line <= 0x7fff_ffff'],
+    ensures=['r <= source@.len()',
+             # the round trip: whatever index i has this position -- on a line that ends in LF, or in a text without LF (the
+             # final line of a text that contains LF is the known finding D4) -- is the index returned
+             'forall|i: int| 0 <= i <= source@.len() && ref_pos(source@, i) == (position.line as int, position.character as int) && '
+             + RT_COND.format(i='i') + ' ==> r == i'],
+    filter_map_collect=dict(invariant=[BOUND, '__out@ == nl_after(source@, __k as int)']),
+    loops={1: dict(desugar='R1', invariant=['__k <= line_end_idx - line_start_idx', 'line_start_idx <= line_end_idx <= source@.len()', BOUND] + KFACTS + [
+                       'traversed_cols == u16sum(source@, line_start_idx as int, line_start_idx + __k)', 'traversed_cols <= 2 * __k',
+                       'forall|m: int| line_start_idx <= m < line_start_idx + __k ==> u16sum(source@, line_start_idx as int, m) != position.character as int'],
+                   decreases='line_end_idx - line_start_idx - __k')},
+    proofs=[dict(before='let line_end_idx', kind='ghost', text='let ghost out0 = newline_indices@;'),
+            dict(before='let line_end_idx', kind='ghost', text='let ghost k0: int = choose|k: int| 0 <= k <= source@.len() && out0 == nl_after(source@, k) && (k == source@.len() || out0.len() == position.line as int + 1);'),
+            dict(before='let line_end_idx', text='lemma_nl_bounds(source@, k0);'),
+            dict(before='let mut traversed_cols', text='if out0.len() >= 2 { assert(out0[out0.len() - 2] < out0[out0.len() - 1]) by { lemma_nl_incr(source@, k0); } }'),
+            dict(before='return line_start_idx', text='lemma_roundtrip_unique(' + LARGS + ', line_start_idx + traversed_chars);'),
+            dict(before='return line_end_idx', text='lemma_roundtrip_end(' + LARGS + ', traversed_cols as int);'),
+            dict(before='line_start_idx', text='lemma_roundtrip_end(' + LARGS + ', traversed_cols as int);')],
+)
+
+# a range that is the image of a span [a, b] (both ends round-trippable) comes back as exactly that span
+RANGE_PRE = ('0 <= a <= b <= source@.len() && ref_pos(source@, a) == (range.start.line as int, range.start.character as int) && ref_pos(source@, b) == (range.end.line as int, range.end.character as int) && '
+             + RT_COND.format(i='a') + ' && ' + RT_COND.format(i='b'))
+RANGE_TO_SPAN = dict(
+    result='r', props=['C08'],
+    requires=[BOUND, 'range.start.line <= 0x7fff_ffff', 'range.end.line <= 0x7fff_ffff', 'exists|a: int, b: int| ' + RANGE_PRE],
+    ensures=['forall|a: int, b: int| ' + RANGE_PRE + ' ==> r.start == a && r.end == b'],
+)
+
+
 def build(repo):
     U = Unit(NAME, repo)
     U.header = common.HEADER
@@ -124,6 +311,7 @@ def build(repo):
     U.raw(PRELUDE, name='trusted:lsp-types-and-std')
     U.raw(SPEC, name='spec:ref_pos')
     U.raw(LEMMAS, name='lemmas:ref_pos', props=['C08'])
+    U.raw(RT_LEMMAS, name='lemmas:roundtrip', props=['C08'])
     U.fn(F, 'index_to_position', INDEX_TO_POSITION)
     U.fn(F, 'span_to_range', dict(result='r', props=['C08'],
                                   requires=['span.start <= source@.len()', 'span.end <= source@.len()', BOUND],
@@ -133,5 +321,7 @@ def build(repo):
                                            'span.start < span.end ==> (r.start.line < r.end.line || (r.start.line == r.end.line && r.start.character < r.end.character))',
                                            'span.start == span.end ==> r.start == r.end'],
                                   proofs=[dict(before='Range', text='if span.start < span.end { lemma_ref_pos_strict(source@, span.start as int, span.end as int); }')]))
+    U.fn(F, 'position_to_index', POSITION_TO_INDEX)
+    U.fn(F, 'range_to_span', RANGE_TO_SPAN)
     U.raw(common.FOOTER)
     return U
